@@ -782,7 +782,7 @@ func vfrDrain(t testing.TB, e *vfEnv, h vfrHandles) (release func()) {
 // vfrExhaustBuckets empties the per-operation buckets of the client so that the next call of each
 // limited kind is refused.
 func vfrExhaustBuckets(e *vfEnv, ip string) {
-	rl := e.n.rateLimiter
+	rl := e.n.rateLimiter.Load()
 	if rl == nil {
 		return
 	}
